@@ -57,6 +57,8 @@ pub fn family(name: &str) -> Family {
             a.extend(ROT_POLICIES.iter().map(|p| format!("prune {p}")));
             a.extend(refresh3.iter().map(|s| s.to_string()));
             a.push("keygen A::x && H::hi".into());
+            // a master-key update between rotations must not disturb the chains
+            a.push("update".into());
             Family {
                 name: "rot",
                 init: w_init(true),
@@ -210,6 +212,37 @@ pub fn family(name: &str) -> Family {
                 max_usks: 2,
                 rt_encs: false,
                 probes: &["recaps"],
+            }
+        }
+        "auth" => {
+            // C01 / C02 over histories: authorisation decisions of keys that have been through
+            // rotations and refreshes (the initial world already holds a refreshed key with two
+            // revisions and a stale one)
+            let mut f = family("rot");
+            f.name = "auth";
+            f.init.extend(ops(&["rekey A::x", "refresh 0 keep"]));
+            f.tags = Tags { open: "C01.h", deny: "C02.h" };
+            f
+        }
+        "disrot" => {
+            // rotation meets deactivation: the initial world already holds a re-keyed right whose
+            // key kept the old secret, so that disable / delete + update + prune + refresh
+            // sequences are reached within four steps
+            let mut init = w_init(true);
+            init.extend(ops(&["rekey A::y", "refresh 1 keep"]));
+            Family {
+                name: "disrot",
+                init,
+                alphabet: ops(&[
+                    "disable A::y", "disable H::hi", "del A::y", "update", "rekey A::y", "rekey *", "prune A::y", "prune *",
+                    "refresh 0 keep", "refresh 0 drop", "refresh 1 keep", "refresh 1 drop", "keygen A::y",
+                ]),
+                enc_menu: vec!["A::x", "A::y", "H::hi", "A::y && H::lo", "A::x || A::y", "*"],
+                tags: Tags { open: "C04.a", deny: "C04.b" },
+                rt_bound: 0,
+                max_usks: 3,
+                rt_encs: false,
+                probes: &[],
             }
         }
         "args" => {
